@@ -106,7 +106,7 @@ reg('C01', 'other',
     'Not decided: the full composition for every n < 10^12 (run-time buffer contents). The reference lexicons /verif/lexicon/*.json are the oracle.',
     T_LEX, 'DESIGN.md §10.2, §3')
 reg('C02', 'other',
-    [textvm.rule_tokenizer, textvm.rule_text_rewrite, scanvm.rule_replace_tokenwise],
+    [only(textvm.rule_tokenizer, r'^(?!whitespace-invariant)'), textvm.rule_text_rewrite, scanvm.rule_replace_tokenwise],
     "V02-TOKENIZER: tokenizer::tokenize interpreted on every string up to length 4 (5 thorough) over one representative per (char class x UTF-8 "
     "width): tokens concatenate to the input, are non-empty, alternate word/separator, lowercase form = lowercased text, no slice off a char boundary. "
     "V02-REPLACE-TOKENWISE: replace_numbers_in_stream on every token script: every token kept or consumed exactly once, in order, by the replacement "
